@@ -266,6 +266,36 @@ def _s(s):
     s.out, s.out_name = v, "v"
 
 
+@scenario("param.view.nested", "torchtree.core.parameter.ViewParameter")
+def _s(s):
+    """a view of a view (e.g. one entry of a block that is itself a slice of a packed vector), a density on the root parameter"""
+    from torchtree.core.parameter import ViewParameter
+    from torchtree.distributions.distributions import Distribution
+    p = s.P("p", [0.5, 1.5, 2.5, 3.5], "real")
+    v1 = s.D("v1", ViewParameter("v1", p, slice(0, 3)), "real")
+    v2 = s.D("v2", ViewParameter("v2", v1, slice(1, 3)), "real")
+    loc = s.P("loc", [0.0], "fixed")
+    sc = s.P("sc", [1.5], "fixed")
+    d = s.M("d", Distribution("d", torch.distributions.Normal, p, OrderedDict([("loc", loc), ("scale", sc)])))
+    d2 = s.M("d2", Distribution("d2", torch.distributions.Normal, v1, OrderedDict([("loc", loc), ("scale", sc)])))
+    s.E("d.__call__", lambda: d())
+    s.E("d2.__call__", lambda: d2())
+    s.out, s.out_name = v2, "v2"
+
+
+@scenario("param.view.of_cat", "torchtree.core.parameter.ViewParameter")
+def _s(s):
+    """a view of a concatenation: the components are the state, the view is one more way of writing to them"""
+    from torchtree.core.parameter import CatParameter, ViewParameter
+    a = s.P("a", [0.5, 1.5], "real")
+    b = s.P("b", [2.5, 3.5], "real")
+    c = s.D("c", CatParameter("c", [a, b], -1), "real")
+    v = s.D("v", ViewParameter("v", c, slice(1, 3)), "real")
+    s.E("a.tensor", lambda: a.tensor)
+    s.E("b.tensor", lambda: b.tensor)
+    s.out, s.out_name = v, "v"
+
+
 @scenario("param.cat", "torchtree.core.parameter.CatParameter")
 def _s(s):
     from torchtree.core.parameter import CatParameter
